@@ -195,6 +195,15 @@ def rule_width(repo, rule):
         # the width drives the number of bits built
         loops = [g for n in ast.walk(fi.node) if isinstance(n, (ast.ListComp, ast.GeneratorExp)) for g in n.generators
                  if "PrivValBool" in norm(n.elt)]
+        if name.startswith("assert_") and consumed and not loops and not any(
+                c.func.attr in width_methods and any(isinstance(x, ast.Name) and x.id in W for a_ in list(c.args) + [k.value for k in c.keywords]
+                                                     for x in ast.walk(a_)) for c in calls):
+            # the range is neither delegated to a width gadget nor enforced by a list of `width` bits: some other decomposition
+            # (limbs of several bits, a lookup, ...).  Whether its pieces are range-bounded and cover exactly the width is not
+            # established here - said so, rather than passing in silence
+            rule.undecided(where, fi.fq, "%s: range of width `%s` enforced by a decomposition of its own" % (name, wp),
+                           "neither a call of a width gadget with this width nor a list of that many bits: the pieces' ranges and "
+                           "their coverage of the width are not decided by this analysis")
         for g in loops:
             ln = _length_of(g.iter, fi.node)
             if ln is not None and len(ln) == 1 and ln <= W:
@@ -368,6 +377,30 @@ def rule_delegation(repo, rule):
                 rule.ok(where, fi.fq, term)
 
 
+def _witness_helpers(repo):
+    """names of one-argument helpers of the runtime module that hand back a fresh witness hinted with their argument
+    (`w = PrivVal(val); <constraints on w>; return w`): like PrivVal itself, their argument is a hint, not part of the circuit"""
+    out = []
+    for fi in repo.module(RT).functions.values():
+        if not isinstance(fi.node, ast.FunctionDef):
+            continue
+        ps = [p_ for p_ in fi.params if p_ not in ("self", "cls")]
+        if len(ps) != 1:
+            continue
+        rets = [r for r in ast.walk(fi.node) if isinstance(r, ast.Return) and r.value is not None]
+        if not rets or not all(isinstance(r.value, ast.Name) for r in rets):
+            continue
+        names = {r.value.id for r in rets}
+        binds = [a for a in ast.walk(fi.node) if isinstance(a, ast.Assign) and len(a.targets) == 1 and isinstance(a.targets[0], ast.Name)
+                 and a.targets[0].id in names]
+        # the argument may reach the result only as the hint: no other use of the parameter in the body
+        uses = [x for x in ast.walk(fi.node) if isinstance(x, ast.Name) and x.id == ps[0] and isinstance(x.ctx, ast.Load)]
+        if binds and all(isinstance(a.value, ast.Call) and norm(a.value.func).split(".")[-1] in ("PrivVal", "PrivValBool") and len(a.value.args) == 1
+                         and norm(a.value.args[0]) == ps[0] for a in binds) and len(uses) == len(binds):
+            out.append(fi.name)
+    return tuple(sorted(set(out)))
+
+
 def rule_wires_only(repo, rule):
     """The relation an assertion enforces in-circuit is a relation between WIRES.  The trace-time value of an operand
     (`x.value`, or a local computed from one) may be used to decide whether to raise, in the error message and as the hint of a
@@ -383,7 +416,7 @@ def rule_wires_only(repo, rule):
         # numbers derived from values (not wires): locals assigned from an expression reading .value, transitively
         tainted = set()
         changed = True
-        alloc = ("PrivVal", "PrivValBool", "PubVal", "ConstVal", "PrivValFxp")
+        alloc = ("PrivVal", "PrivValBool", "PubVal", "ConstVal", "PrivValFxp") + _witness_helpers(repo)
 
         def reads_value(e, skip_alloc=True):
             for x in ast.walk(e):
